@@ -542,6 +542,37 @@ def divzero(ctx, R):
 ALLOWED_RAISE = {"distributor.Distributor.distribute": "unknown layering algorithm (undocumented option value)"}
 
 
+def _dispatch_never_raises(ctx):
+    def build():
+        from .c04 import _self_eval, D
+
+        P = ctx.P
+        f = P.func(D + ".distribute")
+        NODE = P.cls("node.Node")
+        for alg in ("none", "overlap", "simple"):
+            for split in (False, True):
+                def hook(fv, args, kwargs, node, st_, split=split):
+                    if isinstance(fv, Closure) and fv.func.qual == D + ".needToSplit":
+                        return TRUE if split else FALSE
+                    if isinstance(fv, Closure) and fv.func.qual.startswith(D + ".algorithm_"):
+                        return Opaque("%s(...)" % fv.func.name)
+                    from ..sym import Bound
+                    if isinstance(fv, Bound) and isinstance(fv.recv, Opaque) and fv.name.startswith("algorithm_"):
+                        return Opaque("%s(...)" % fv.name)
+                    return None
+
+                ev, st, s, o = _self_eval(ctx, f, {"algorithm": Const(alg)}, hook=hook)
+                ev.nonempty.add("NS")
+                for k_ in ("cmp(eq, len(NS), 0)", "cmp(le, len(NS), 0)", "cmp(lt, len(NS), 1)"):
+                    ev.assume(k_, False)
+                r = ev.call_closure(Closure(f, None, selfv=s), [Opaque("NS", cls=NODE, kind="seq")], {}, st)
+                if "<raise" in key(r):
+                    return False
+        return True
+
+    return ctx.get("c11.dispatch_never_raises", build)
+
+
 @rule("C11.RAISE")
 def raise_rule(ctx, R):
     P = ctx.P
@@ -554,8 +585,9 @@ def raise_rule(ctx, R):
             if isinstance(nd, (ast.Raise, ast.Assert)):
                 ok = q in ALLOWED_RAISE and isinstance(nd, ast.Raise)
                 if ok:
-                    # must be the final else of the algorithm dispatch
-                    ok = "algorithm" in ntext(nd)
+                    # the raise must be unreachable for every documented algorithm name: decided on the value-numbered
+                    # dispatch (if/elif chain, dict look-up, ... whatever its shape)
+                    ok = _dispatch_never_raises(ctx)
                 R.check(ok, "C11.RAISE", "%s|%s" % (q, ntext(nd)[:40]), where(f, nd), ALLOWED_RAISE.get(q, ""), "`%s` can be reached while exporting documented inputs" % ntext(nd)[:60])
 
 
